@@ -115,6 +115,22 @@ func TestEngine(t *testing.T) {
 			})
 		}
 	}
+	if want("C09") {
+		n := run_.N(60, 1500)
+		for i := 0; i < n; i++ {
+			if !run_.Mine(i) {
+				continue
+			}
+			i := i
+			spawn(func() {
+				r := vc.NewRand(run_.Seed, engine+"-c09", uint64(i))
+				sc := genC09(r)
+				sc.ID = fmt.Sprintf("%s/%d/c09", engine, i)
+				vc.Scn(sc.ID)
+				evalC09(col, sc, runC09(sc))
+			})
+		}
+	}
 	if want("C02") {
 		n := run_.N(160, 3000)
 		for i := 0; i < n; i++ {
